@@ -727,3 +727,168 @@ theorem locateKeyRangeLoop_spec {fuel : Nat} {c c' : Cache} {pd : PD} {s e s0 : 
                   exact hstep k h1 h3 (Or.inr h2)
 
 end CGV.Region
+
+namespace CGV.Region
+open CGV
+
+/-! ## GroupKeysByRegion -/
+
+def groupTotal (g : List (VerID × List Bytes)) : Nat := (g.map (·.2.length)).sum
+
+theorem groupAdd_total (g : List (VerID × List Bytes)) (v : VerID) (k : Bytes) :
+    groupTotal (groupAdd g v k) = groupTotal g + 1 := by
+  induction g with
+  | nil => simp [groupAdd, groupTotal]
+  | cons x xs ih =>
+    obtain ⟨v', ks⟩ := x
+    simp only [groupAdd]
+    split
+    · simp [groupTotal]; omega
+    · simp only [groupTotal, List.map_cons, List.sum_cons] at *
+      omega
+
+theorem groupAdd_self (g : List (VerID × List Bytes)) (v : VerID) (k : Bytes) :
+    ∃ ks, (v, ks) ∈ groupAdd g v k ∧ k ∈ ks := by
+  induction g with
+  | nil => exact ⟨[k], by simp [groupAdd], by simp⟩
+  | cons x xs ih =>
+    obtain ⟨v', ks⟩ := x
+    simp only [groupAdd]
+    split
+    · rename_i heq
+      subst heq
+      exact ⟨ks ++ [k], List.mem_cons_self .., by simp⟩
+    · obtain ⟨ks', h1, h2⟩ := ih
+      exact ⟨ks', List.mem_cons_of_mem _ h1, h2⟩
+
+theorem groupAdd_mono {g : List (VerID × List Bytes)} {v v' : VerID} {k : Bytes} {ks : List Bytes}
+    (h : (v', ks) ∈ g) : ∃ ks', (v', ks') ∈ groupAdd g v k ∧ ∀ x ∈ ks, x ∈ ks' := by
+  induction g with
+  | nil => cases h
+  | cons x xs ih =>
+    obtain ⟨v0, ks0⟩ := x
+    simp only [groupAdd]
+    split
+    · rename_i heq
+      subst heq
+      rcases List.mem_cons.mp h with h | h
+      · cases h
+        exact ⟨ks ++ [k], List.mem_cons_self .., fun x hx => List.mem_append_left _ hx⟩
+      · exact ⟨ks, List.mem_cons_of_mem _ h, fun x hx => hx⟩
+    · rcases List.mem_cons.mp h with h | h
+      · cases h
+        exact ⟨ks, List.mem_cons_self .., fun x hx => hx⟩
+      · obtain ⟨ks', h1, h2⟩ := ih h
+        exact ⟨ks', List.mem_cons_of_mem _ h1, h2⟩
+
+theorem groupAdd_nodup {g : List (VerID × List Bytes)} (v : VerID) (k : Bytes) (h : (g.map (·.1)).Nodup) :
+    ((groupAdd g v k).map (·.1)).Nodup := by
+  induction g with
+  | nil => simp [groupAdd]
+  | cons x xs ih =>
+    obtain ⟨v0, ks0⟩ := x
+    simp only [List.map_cons, List.nodup_cons] at h
+    simp only [groupAdd]
+    split
+    · simpa using h
+    · rename_i hne
+      simp only [List.map_cons, List.nodup_cons]
+      refine ⟨?_, ih h.2⟩
+      intro hmem
+      obtain ⟨⟨v1, ks1⟩, h1, h2⟩ := List.mem_map.mp hmem
+      simp only at h2
+      subst h2
+      -- a group of groupAdd xs v k either is the new one (v) or comes from xs
+      have : v1 = v ∨ v1 ∈ xs.map (·.1) := by
+        clear ih h hmem hne
+        induction xs with
+        | nil => simp [groupAdd] at h1; left; exact h1.1
+        | cons y ys ihy =>
+          obtain ⟨vy, ky⟩ := y
+          simp only [groupAdd] at h1
+          split at h1
+          · rcases List.mem_cons.mp h1 with h1 | h1
+            · cases h1; right; simp
+            · right; exact List.mem_map.mpr ⟨_, List.mem_cons_of_mem _ h1, rfl⟩
+          · rcases List.mem_cons.mp h1 with h1 | h1
+            · cases h1; right; simp
+            · rcases ihy h1 with h | h
+              · left; exact h
+              · right; simp only [List.map_cons, List.mem_cons]; right; exact h
+      rcases this with h3 | h3
+      · exact hne h3
+      · exact h.1 h3
+
+/-- what GroupKeysByRegion guarantees for a key: a location used for it contains it and the key sits in the group
+    of that location's VerID -/
+def Grouped (g : List (VerID × List Bytes)) (locs : List Region) (k : Bytes) : Prop :=
+  ∃ l ∈ locs, l.contains k = true ∧ ∃ ks, (l.verID, ks) ∈ g ∧ k ∈ ks
+
+theorem Grouped.step {g : List (VerID × List Bytes)} {locs : List Region} {k : Bytes} (h : Grouped g locs k)
+    (v : VerID) (k' : Bytes) (l' : Region) : Grouped (groupAdd g v k') (l' :: locs) k := by
+  obtain ⟨l, hl, hc, ks, hks, hk⟩ := h
+  obtain ⟨ks', h1, h2⟩ := groupAdd_mono (v := v) (k := k') hks
+  exact ⟨l, List.mem_cons_of_mem _ hl, hc, ks', h1, h2 k hk⟩
+
+theorem locateKey_contains {c c' : Cache} {pd : PD} {key : Bytes} {r : Region}
+    (h : locateKey c pd key = (c', .ok r)) : r.contains key = true := by
+  unfold locateKey at h
+  cases hf : findRegionByKey c pd key false with
+  | mk c1 res =>
+    rw [hf] at h
+    cases res with
+    | error x => simp [Except.map] at h
+    | ok e =>
+      simp only [Except.map, Prod.mk.injEq, Except.ok.injEq] at h
+      rw [← h.2]
+      exact findRegionByKey_spec (isEnd := false) (fun e he => by simpa [inRegion] using loadRegion_contains he) hf
+
+theorem groupKeysLoop_spec {pd : PD} {keys : List Bytes} {c c' : Cache} {lastLoc : Option Region}
+    {g g' : List (VerID × List Bytes)} {locs locs' : List Region} {done : List Bytes}
+    (h : groupKeysLoop pd keys c lastLoc g locs = (c', .ok (g', locs')))
+    (hinv : ∀ k ∈ done, Grouped g locs k) (hnd : (g.map (·.1)).Nodup) :
+    (∀ k ∈ done ++ keys, Grouped g' locs'.reverse k) ∧ groupTotal g' = groupTotal g + keys.length ∧
+      (g'.map (·.1)).Nodup := by
+  induction keys generalizing c lastLoc g locs done with
+  | nil =>
+    simp only [groupKeysLoop, Prod.mk.injEq, Except.ok.injEq] at h
+    obtain ⟨_, rfl, rfl⟩ := h
+    simp only [List.append_nil, List.reverse_reverse, List.length_nil, Nat.add_zero]
+    exact ⟨hinv, trivial, hnd⟩
+  | cons k ks ih =>
+    simp only [groupKeysLoop] at h
+    have key : ∀ (c1 : Cache) (l : Region), l.contains k = true →
+        groupKeysLoop pd ks c1 (some l) (groupAdd g l.verID k) (l :: locs) = (c', .ok (g', locs')) →
+        (∀ k' ∈ done ++ k :: ks, Grouped g' locs'.reverse k') ∧ groupTotal g' = groupTotal g + (k :: ks).length ∧
+          (g'.map (·.1)).Nodup := by
+      intro c1 l hc h'
+      have hinv' : ∀ k' ∈ done ++ [k], Grouped (groupAdd g l.verID k) (l :: locs) k' := by
+        intro k' hk'
+        rcases List.mem_append.mp hk' with hk' | hk'
+        · exact (hinv k' hk').step _ _ _
+        · simp only [List.mem_singleton] at hk'
+          subst hk'
+          obtain ⟨ks', h1, h2⟩ := groupAdd_self g l.verID k'
+          exact ⟨l, List.mem_cons_self .., hc, ks', h1, h2⟩
+      have := ih h' hinv' (groupAdd_nodup _ _ hnd)
+      rw [groupAdd_total] at this
+      refine ⟨?_, ?_, this.2.2⟩
+      · simpa using this.1
+      · simp only [List.length_cons]; omega
+    split at h
+    · rename_i l hl
+      have hc : l.contains k = true := by
+        split at hl
+        · split at hl
+          · rename_i l0 _ hcl; cases hl; exact hcl
+          · cases hl
+        · cases hl
+      exact key c l hc h
+    · cases hloc : locateKey c pd k with
+      | mk c1 res =>
+        rw [hloc] at h
+        cases res with
+        | error x => simp at h
+        | ok l => exact key c1 l (locateKey_contains hloc) h
+
+end CGV.Region
